@@ -133,6 +133,87 @@ end Diskfs.Sqfs
 
 namespace Diskfs.Sqfs
 
+/-! ### listing sizes do not change under `translateInodeLocations` -/
+
+def setSB (f : Nat → Nat) (e : DEnt) : DEnt := { e with startBlock := f e.startBlock }
+
+theorem encodeDEnt_setSB (base : Nat) (f : Nat → Nat) (e : DEnt) : encodeDEnt base (setSB f e) = encodeDEnt base e := rfl
+
+theorem takeGroup_map (f : Nat → Nat) (sb : Nat) : ∀ (n : Nat) (l : List DEnt),
+    (∀ e ∈ l, f e.startBlock = f sb → e.startBlock = sb) →
+    takeGroup (f sb) n (l.map (setSB f)) = (takeGroup sb n l).map (setSB f) := by
+  intro n
+  induction n with
+  | zero => intro l _; simp [takeGroup]
+  | succ n ih =>
+    intro l h
+    cases l with
+    | nil => simp [takeGroup]
+    | cons e r =>
+      simp only [List.map_cons, takeGroup]
+      by_cases he : e.startBlock = sb
+      · have : (setSB f e).startBlock = f sb := by simp [setSB, he]
+        rw [if_pos this, if_pos he, ih r (fun x hx => h x (List.mem_cons_of_mem _ hx))]
+        rfl
+      · have : ¬ (setSB f e).startBlock = f sb := fun hh => he (h e (List.mem_cons_self ..) hh)
+        rw [if_neg this, if_neg he]
+        rfl
+
+theorem encodeDir_length_map (base : Nat) (f : Nat → Nat) : ∀ (fuel : Nat) (l : List DEnt),
+    (∀ a ∈ l, ∀ b ∈ l, f a.startBlock = f b.startBlock → a.startBlock = b.startBlock) →
+    (encodeDir base fuel (l.map (setSB f))).length = (encodeDir base fuel l).length := by
+  intro fuel
+  induction fuel with
+  | zero => intro l _; simp [encodeDir]
+  | succ fuel ih =>
+    intro l h
+    cases l with
+    | nil => simp [encodeDir]
+    | cons e r =>
+      have hg := takeGroup_map f e.startBlock maxDirEntries (e :: r) (fun x hx hh => h x hx e (List.mem_cons_self ..) hh)
+      have hsb : (setSB f e).startBlock = f e.startBlock := rfl
+      simp only [List.map_cons, encodeDir, hsb] at hg ⊢
+      rw [hg]
+      simp only [List.length_append, leEnc_length, List.length_map, List.map_map]
+      have e1 : (List.map (encodeDEnt base ∘ setSB f) (takeGroup e.startBlock maxDirEntries (e :: r))) =
+          List.map (encodeDEnt base) (takeGroup e.startBlock maxDirEntries (e :: r)) := by
+        apply List.map_congr_left; intro x _; rfl
+      rw [e1]
+      have e2 : List.drop (takeGroup e.startBlock maxDirEntries (e :: r)).length (setSB f e :: List.map (setSB f) r) =
+          ((e :: r).drop (takeGroup e.startBlock maxDirEntries (e :: r)).length).map (setSB f) := by
+        rw [List.map_drop]; rfl
+      rw [e2, ih _ (fun a ha b hb => h a (List.mem_of_mem_drop ha) b (List.mem_of_mem_drop hb))]
+
+theorem listing_map (fl : List FEnt) (lrefs : List (Nat × Nat)) (xl : Nat → Nat) (d : Nat) :
+    listingOf fl lrefs xl d = (listingOf fl lrefs id d).map (setSB xl) := by
+  unfold listingOf
+  rw [List.map_map]
+  apply List.map_congr_left
+  intro ch _
+  rfl
+
+theorem metaOff_succ (c : Codec) (nc : Bool) (blocks : List Bytes) (k : Nat) (hk : k < blocks.length) :
+    metaOff c nc blocks (k + 1) = metaOff c nc blocks k + (encodeMetaBlock c nc blocks[k]).length := by
+  unfold metaOff
+  have : blocks.take (k + 1) = blocks.take k ++ [blocks[k]] := by
+    rw [List.take_succ, List.getElem?_eq_getElem hk]; rfl
+  rw [this, metaTable_append, List.length_append]
+  simp [metaTable]
+
+theorem metaOff_strict (c : Codec) (nc : Bool) (blocks : List Bytes) (j1 : Nat) : ∀ j2, j1 < j2 → j2 ≤ blocks.length →
+    metaOff c nc blocks j1 < metaOff c nc blocks j2 := by
+  intro j2
+  induction j2 with
+  | zero => intro h; omega
+  | succ j ih =>
+    intro h hl
+    rw [metaOff_succ c nc blocks j (by omega)]
+    have hpos : 2 ≤ (encodeMetaBlock c nc blocks[j]).length := by
+      rw [encodeMetaBlock_eq, encStored_length]; omega
+    by_cases hj : j1 = j
+    · subst hj; omega
+    · have := ih (by omega) (by omega); omega
+
 section roundtrip
 variable (c : Codec) (o : WOpt) (fl : List FEnt) (fuel : Nat)
 
@@ -235,6 +316,39 @@ theorem bRefs_getD (L : Limits c o fl fuel) (k : Nat) (hk : k < fl.length) :
   unfold bOffs
   rw [iblocks_eq c o fl fuel L, translate_metaOff c o.noCompData _ _ (div_lt_chunks _ _ (ipos_lt c o fl fuel L k hk))]
 
+theorem xl_inj (hlr : ∀ k, k < fl.length → ((bLrefs o fl).getD k (0, 0)).1 < (bIblocks c o fl fuel).length)
+    (a b : Nat) (ha : a < fl.length) (hb : b < fl.length)
+    (h : bXl c o fl fuel ((bLrefs o fl).getD a (0, 0)).1 = bXl c o fl fuel ((bLrefs o fl).getD b (0, 0)).1) :
+    ((bLrefs o fl).getD a (0, 0)).1 = ((bLrefs o fl).getD b (0, 0)).1 := by
+  have h1 := hlr a ha
+  have h2 := hlr b hb
+  unfold bXl bOffs at h
+  rw [translate_metaOff c o.noCompData _ _ h1, translate_metaOff c o.noCompData _ _ h2] at h
+  apply Classical.byContradiction
+  intro hne
+  rcases Nat.lt_or_gt_of_ne hne with hlt | hgt
+  · have := metaOff_strict c o.noCompData _ _ _ hlt (Nat.le_of_lt h2); omega
+  · have := metaOff_strict c o.noCompData _ _ _ hgt (Nat.le_of_lt h1); omega
+
+/-- the listing sizes `populateDirectoryLocations` computes BEFORE `translateInodeLocations` are the
+    sizes of the listings that are written after it: the translation is injective on the blocks in use -/
+theorem len_inv (L : Limits c o fl fuel) (d : Nat) (hd : d < fl.length) :
+    (encodeListing 0 (listingOf fl (bLrefs o fl) (bXl c o fl fuel) d)).length =
+      (encodeListing 0 (listingOf fl (bLrefs o fl) id d)).length := by
+  have hlr : ∀ k, k < fl.length → ((bLrefs o fl).getD k (0, 0)).1 < (bIblocks c o fl fuel).length := by
+    intro k hk
+    rw [lrefs_getD c o fl fuel L k hk, iblocks_eq c o fl fuel L]
+    exact div_lt_chunks _ _ (ipos_lt c o fl fuel L k hk)
+  rw [listing_map]
+  unfold encodeListing
+  rw [List.length_map]
+  apply encodeDir_length_map
+  intro a ha b hb h
+  unfold listingOf at ha hb
+  obtain ⟨ka, hka, rfl⟩ := List.mem_map.1 ha
+  obtain ⟨kb, hkb, rfl⟩ := List.mem_map.1 hb
+  exact xl_inj c o fl fuel hlr ka kb (L.closed d hd ka hka) (L.closed d hd kb hkb) h
+
 /-! ### the regions of the image on the device -/
 
 structure OnDev (img : Dev) : Prop where
@@ -243,6 +357,8 @@ structure OnDev (img : Dev) : Prop where
   frag : HoldsAt img (bFragStart0 c o fl) (storedBytes (bFstored c o fl))
   itab : HoldsAt img (bInodeStart c o fl) (bItab c o fl fuel ++ bDtab c o fl fuel)
   dtab : HoldsAt img (bDirStart c o fl fuel) (bDtab c o fl fuel)
+  dtail : HoldsAt img (bDirStart c o fl fuel) (bDtab c o fl fuel ++ (bFtab c o fl ++ (bFidx c o fl fuel ++
+      (bEtab c o fl fuel ++ (bEidx c o fl fuel ++ (bIdtab c o fl ++ bIdidx c o fl fuel))))))
   ftab : HoldsAt img (bFLoc c o fl fuel) (bFtab c o fl)
   fidx : HoldsAt img (bFragIdx c o fl fuel) (bFidx c o fl fuel)
   idtab : HoldsAt img (bIdLoc c o fl fuel) (bIdtab c o fl)
@@ -269,7 +385,7 @@ theorem onDev_of_image (img : Dev) (h : HoldsAt img 0 (bImage c o fl fuel)) : On
   obtain ⟨_, r9⟩ := holdsAt_append _ _ _ _ r8
   obtain ⟨_, r10⟩ := holdsAt_append _ _ _ _ r9
   obtain ⟨a11, a12⟩ := holdsAt_append _ _ _ _ r10
-  exact ⟨a1, a3, a4, a5, a6, a7, a8, a11, a12⟩
+  exact ⟨a1, a3, a4, a5, a6, r5, a7, a8, a11, a12⟩
 
 /-! ### what the reader finds at the references -/
 
@@ -321,13 +437,74 @@ theorem bLsts_length : (bLsts c o fl fuel).length = (bOrder fl fuel).length := b
 
 theorem metaOff_zero (nc : Bool) (l : List Bytes) : metaOff c nc l 0 = 0 := by simp [metaOff, metaTable]
 
+theorem flat_ne {α : Type} (f : α → Bytes) (l : List α) (k : Nat) (hk : 3 ≤ k) (hf : ∀ x, (f x).length = k) (hl : l ≠ []) :
+    (l.map f).flatten ≠ [] ∧ 3 ≤ ((l.map f).flatten).length := by
+  cases l with
+  | nil => exact absurd rfl hl
+  | cons r rs =>
+    have h3 : 3 ≤ (((r :: rs).map f).flatten).length := by
+      simp only [List.map_cons, List.flatten_cons, List.length_append, hf]; omega
+    refine ⟨?_, h3⟩
+    intro h; rw [h] at h3; simp at h3
+
+theorem first_block (nc : Bool) (S : Bytes) (hS : S ≠ []) :
+    ∃ more, metaTable c nc (metaChunks S) = encodeMetaBlock c nc (S.take metaBlock) ++ more ∧ BlockOK (S.take metaBlock) ∧
+      min metaBlock S.length ≤ (S.take metaBlock).length := by
+  refine ⟨metaTable c nc (metaChunks (S.drop metaBlock)), by rw [metaChunks_cons S hS, metaTable_cons], ?_, by simp⟩
+  exact metaChunks_ok S _ (by rw [metaChunks_cons S hS]; exact List.mem_cons_self ..)
+
+theorem lookupIndex_nil (nc : Bool) (loc : Nat) : lookupIndex c nc loc [] = [] := rfl
+
+/-- behind the directory table stands another metadata block of at least 3 bytes: the first block
+    of the fragment table, or (no fragments) of the export table, or (not exportable) of the id table -/
+theorem after_dtab (L : Limits c o fl fuel) (img : Dev) (D : OnDev c o fl fuel img) :
+    ∃ nb, BlockOK nb ∧ 3 ≤ nb.length ∧
+      HoldsAt img (bDirStart c o fl fuel) (metaTable c o.noCompData (metaChunks (bDstream c o fl fuel) ++ [nb])) := by
+  have key : ∀ S more2, S ≠ [] → 3 ≤ S.length →
+      HoldsAt img (bDirStart c o fl fuel) (bDtab c o fl fuel ++ (metaTable c o.noCompData (metaChunks S) ++ more2)) →
+      ∃ nb, BlockOK nb ∧ 3 ≤ nb.length ∧
+        HoldsAt img (bDirStart c o fl fuel) (metaTable c o.noCompData (metaChunks (bDstream c o fl fuel) ++ [nb])) := by
+    intro S more2 hS h3 hH
+    obtain ⟨more, he, hok, hmin⟩ := first_block c o.noCompData S hS
+    refine ⟨S.take metaBlock, hok, by simp only [metaBlock] at hmin ⊢; omega, ?_⟩
+    rw [he, List.append_assoc, ← List.append_assoc] at hH
+    have := (holdsAt_append _ _ _ _ hH).1
+    unfold bDtab at this
+    rw [dblocks_eq c o fl fuel L] at this
+    rw [chunksD c o fl fuel L, metaTable_append]
+    simpa [metaTable] using this
+  have hT := D.dtail
+  by_cases hf : bFents c o fl = []
+  · have e1 : bFtab c o fl = [] := by unfold bFtab bFblocks; rw [hf]; rfl
+    have e2 : bFidx c o fl fuel = [] := by unfold bFidx bFblocks; rw [hf]; rfl
+    rw [e1, e2, List.nil_append, List.nil_append] at hT
+    by_cases hx : o.exportable = true
+    · have hne : exportStream (bRefs c o fl fuel) ≠ [] ∧ 3 ≤ (exportStream (bRefs c o fl fuel)).length := by
+        have hl : (bRefs c o fl fuel).length = fl.length := by simp [bRefs, bLrefs, inodeRefs_length]
+        have h0 := L.n0
+        exact flat_ne exportEnt _ 8 (by omega) (by intro x; simp [exportEnt]) (by intro h; rw [h] at hl; simp at hl; omega)
+      have : bEtab c o fl fuel = metaTable c o.noCompData (metaChunks (exportStream (bRefs c o fl fuel))) := by
+        unfold bEtab bEblocks; rw [if_pos hx]
+      rw [this] at hT
+      exact key _ _ hne.1 hne.2 hT
+    · have e3 : bEtab c o fl fuel = [] := by unfold bEtab bEblocks; rw [if_neg hx]; rfl
+      have e4 : bEidx c o fl fuel = [] := by unfold bEidx bEblocks; rw [if_neg hx]; rfl
+      rw [e3, e4, List.nil_append, List.nil_append] at hT
+      have hne : idStream (idTable fl) ≠ [] ∧ 3 ≤ (idStream (idTable fl)).length := by
+        have hm := (mem_idTable fl _ (getD_mem fl 0 FEnt.nil L.n0)).1
+        exact flat_ne (leEnc 4) _ 4 (by omega) (by intro x; simp) (by intro h; rw [h] at hm; simp at hm)
+      exact key _ _ hne.1 hne.2 hT
+  · have hne : fragStream (bFents c o fl) ≠ [] ∧ 3 ≤ (fragStream (bFents c o fl)).length := by
+      exact flat_ne encodeFragEnt _ 16 (by omega) (by intro x; simp [encodeFragEnt]) hf
+    exact key _ _ hne.1 hne.2 hT
+
 theorem listing_reads (L : Limits c o fl fuel) (img : Dev) (D : OnDev c o fl fuel img) (d : Nat) (hd : d < fl.length)
     (hdir : (fl.getD d FEnt.nil).kind = 1) :
     (bDl o fl fuel).getD (idxIn d (bOrder fl fuel)) (0, 0, 0) =
       (0, dpos c o fl fuel (idxIn d (bOrder fl fuel)),
         (encodeListing 0 (listingOf fl (bLrefs o fl) (bXl c o fl fuel) d)).length + 3) ∧
     ∃ rest, ReadsFrom c img (bDirStart c o fl fuel) 0 (dpos c o fl fuel (idxIn d (bOrder fl fuel)))
-      (encodeListing 0 (listingOf fl (bLrefs o fl) (bXl c o fl fuel) d) ++ rest) := by
+      (encodeListing 0 (listingOf fl (bLrefs o fl) (bXl c o fl fuel) d) ++ rest) ∧ 3 ≤ rest.length := by
   obtain ⟨hj, hget⟩ := idxIn_spec d (bOrder fl fuel) (L.reach d hd hdir)
   generalize idxIn d (bOrder fl fuel) = j at hj hget
   have hmem : ∀ x ∈ bOrder fl fuel, x < fl.length := dirOrder_lt c o fl fuel L fuel 0 L.n0
@@ -337,7 +514,7 @@ theorem listing_reads (L : Limits c o fl fuel) (img : Dev) (D : OnDev c o fl fue
     simp only [List.map_map]
     apply List.map_congr_left
     intro x hx
-    exact (L.lenInv x (hmem x hx)).symm
+    exact (len_inv c o fl fuel L x (hmem x hx)).symm
   have hle : dpos c o fl fuel j ≤ (bDstream c o fl fuel).length := flatten_take_le _ _
   have hlt := L.dirSmall.2
   have hgj : (bLsts c o fl fuel).getD j [] = encodeListing 0 (listingOf fl (bLrefs o fl) (bXl c o fl fuel) d) := by
@@ -355,20 +532,15 @@ theorem listing_reads (L : Limits c o fl fuel) (img : Dev) (D : OnDev c o fl fue
     have e2 : dpos c o fl fuel j % metaBlock = dpos c o fl fuel j := Nat.mod_eq_of_lt (by omega)
     change (dpos c o fl fuel j / metaBlock, dpos c o fl fuel j % metaBlock, _) = _
     rw [e1, e2, getD_map_of_lt List.length _ j 0 [] (by rw [bLsts_length]; exact hj), hgj]
-  · have hT : HoldsAt img (bDirStart c o fl fuel) (metaTable c o.noCompData (metaChunks (bDstream c o fl fuel) ++ [])) := by
-      have := D.dtab
-      unfold bDtab at this
-      rw [dblocks_eq c o fl fuel L] at this
-      rw [chunksD c o fl fuel L]
-      simpa using this
+  · obtain ⟨nb, hnb, hnb3, hT⟩ := after_dtab c o fl fuel L img D
     have e1 : dpos c o fl fuel j / metaBlock = 0 := Nat.div_eq_of_lt (by omega)
     have e2 : dpos c o fl fuel j % metaBlock = dpos c o fl fuel j := Nat.mod_eq_of_lt (by omega)
-    have := readsFrom_stream c o.noCompData img _ (bDstream c o fl fuel) [] (by simp) hT (dpos c o fl fuel j) hle
-      (by rw [e1, chunksD c o fl fuel L]; simp)
+    have := readsFrom_stream c o.noCompData img _ (bDstream c o fl fuel) [nb] (by intro x hx; simp at hx; subst hx; exact hnb) hT
+      (dpos c o fl fuel j) hle (by rw [e1, chunksD c o fl fuel L]; simp)
     rw [e1, e2, metaOff_zero] at this
     have hsplit := flatten_drop_prefix (bLsts c o fl fuel) j (by rw [bLsts_length]; exact hj)
     rw [hgj] at hsplit
-    refine ⟨((bLsts c o fl fuel).drop (j + 1)).flatten ++ ([] : List Bytes).flatten, ?_⟩
+    refine ⟨((bLsts c o fl fuel).drop (j + 1)).flatten ++ [nb].flatten, ?_, by simp; omega⟩
     have e : (bDstream c o fl fuel).drop (dpos c o fl fuel j) = _ := hsplit
     rw [e, List.append_assoc] at this
     exact this
@@ -549,24 +721,24 @@ theorem img_shows (L : Limits c o fl fuel) (img : Dev) (D : OnDev c o fl fuel im
     rw [hkids]
     have hiso := isDir_iff c o fl fuel L d hd'
     have hsome : (bTree c o fl fuel).isDir d = true := by
-      unfold STree.isDir; rw [hl]; rfl
+      unfold STree.isDir; rw [← dirAsk_isSome, hl]; rfl
     rw [hsome] at hiso
     have hdir : (fl.getD d FEnt.nil).kind = 1 := by simpa using hiso.symm
-    obtain ⟨hdl, rest, hR⟩ := listing_reads c o fl fuel L img D d hd' hdir
-    have hbody : listingRef ((bTree c o fl fuel).ino d).body =
-        some (0, dpos c o fl fuel (idxIn d (bOrder fl fuel)), (encodeListing 0 (listingOf fl (bLrefs o fl) (bXl c o fl fuel) d)).length) := by
-      change listingRef ((bInodes c o fl fuel).getD d Inode.nil).body = _
+    obtain ⟨hdl, rest, hR, hr3⟩ := listing_reads c o fl fuel L img D d hd' hdir
+    have hbody : dirAsk ((bTree c o fl fuel).ino d).body =
+        some (0, dpos c o fl fuel (idxIn d (bOrder fl fuel)), (encodeListing 0 (listingOf fl (bLrefs o fl) (bXl c o fl fuel) d)).length + 3) := by
+      change dirAsk ((bInodes c o fl fuel).getD d Inode.nil).body = _
       rw [bInodes_getD c o fl fuel d hd', hdl]
       simp only [mkInode]
       generalize fl.getD d FEnt.nil = e at hdir ⊢
       unfold mkBody
-      by_cases hlk : e.links > 0 <;> simp [hdir, hlk, listingRef]
+      by_cases hlk : e.links > 0 <;> simp [hdir, hlk, dirAsk]
     rw [hbody] at hl
     injection hl with hl
     injection hl with h1 hl
     injection hl with h2 h3
     subst h1 h2 h3
-    exact ⟨rest, hR, rfl⟩
+    exact ⟨rest, hR, rfl, hr3⟩
   · intro k hk
     have hk' : k < fl.length := hk
     have hm := mem_idTable fl _ (getD_mem fl k FEnt.nil hk')
@@ -666,8 +838,8 @@ theorem image_round_trip (L : Limits c o fl fuel) (hroot : (fl.getD 0 FEnt.nil).
 
 theorem limits_of_check (h : limitsB c o fl fuel = true) : Limits c o fl fuel := by
   simp only [limitsB, Bool.and_eq_true, decide_eq_true_eq] at h
-  obtain ⟨⟨⟨⟨⟨⟨⟨⟨⟨⟨⟨⟨h1, h2⟩, h3⟩, h4⟩, h5⟩, h6⟩, h7⟩, h8⟩, h9⟩, h10⟩, h11⟩, h12⟩, h13⟩ := h
-  exact ⟨h1, h2, h3, h4, h5, h6, h7, h8, h9, h10, h11, h12, h13⟩
+  obtain ⟨⟨⟨⟨⟨⟨⟨⟨⟨⟨⟨h1, h2⟩, h3⟩, h4⟩, h5⟩, h6⟩, h7⟩, h8⟩, h9⟩, h10⟩, h11⟩, h12⟩ := h
+  exact ⟨h1, h2, h3, h4, h5, h6, h7, h8, h9, h10, h11, h12⟩
 
 theorem fits_of_check (L : Limits c o fl fuel) : ∀ (f d : Nat), d < fl.length → fitsB fl f d = true → (bTree c o fl fuel).Fits f d := by
   intro f
